@@ -9,7 +9,8 @@ INST = 'proid.app#0000000001'
 GENS = {'g1': (1000.0, 11), 'g2': (2000.0, 12)}     # (st_ctime, st_ino)
 
 STEPS = ['created', 'deleted', 'ready_created', 'ready_deleted', 'restart',
-         'finishes', 'cleanup_done', 'recreated', 'finishes_then_restart']
+         'finishes', 'cleanup_done', 'recreated', 'finishes_then_restart',
+         'recreated_events_late']
 
 
 def subharnesses(tier):
@@ -156,7 +157,7 @@ def harness(S, spec):
     #    "recreated" does not exist beforehand either.
     if spec['step'] == 'created' and cache != 'none':
         S.assume(not present[cache])
-    if spec['step'] == 'recreated':
+    if spec['step'] in ('recreated', 'recreated_events_late'):
         S.assume(not present['g2'])
     S.notes['cname'] = dict(cname)
     S.notes['pre'] = {'cache': cache, 'running': run,
@@ -206,6 +207,16 @@ def harness(S, spec):
             open(cache_file, 'w').close()
             shim.gen = 'g2'
             cache = 'g2'
+            mgr._on_created(cache_file)
+        elif step == 'recreated_events_late':
+            # evicted and placed again on this node while the manager was busy:
+            # both inotify events are handled after the new file exists
+            S.assume(cache == 'g1')
+            os.unlink(cache_file)
+            open(cache_file, 'w').close()
+            shim.gen = 'g2'
+            cache = 'g2'
+            mgr._on_deleted(cache_file)
             mgr._on_created(cache_file)
         elif step == 'ready_created':
             open(ready, 'w').close()
@@ -308,6 +319,24 @@ def harness(S, spec):
                 S.check('C13:running_link_does_not_match_cache',
                         running == {INST: cur}, {'running': running,
                                                  'expected': cur})
+    # (O6) after the delete + create events of a re-placed instance have been
+    # handled by an active manager, the old generation is not running any more
+    # and the new one is (if it can be configured)
+    if step in ('recreated', 'recreated_events_late') and spec['active']:
+        S.reach('recreated_handled')
+        old_c, new_c = cname['g1'], cname['g2']
+        S.check('C13:replaced_generation_still_running',
+                running.get(INST) != old_c,
+                {'running': running, 'cleanup': cleanup})
+        if before_run.get(INST) == old_c:
+            S.check('C13:container_without_cache_entry_not_in_cleanup',
+                    old_c in cleanup.values() or old_c not in apps,
+                    {'container': old_c, 'cleanup': cleanup,
+                     'running': running})
+        if configure_ok:
+            S.check('C13:cached_manifest_not_running_after_events',
+                    running.get(INST) == new_c,
+                    {'running': running, 'expected': new_c})
     # (O5) an unchanged running container is left running
     if before_run.get(INST) == cname.get(spec['cache']) and \
             before_run.get(INST) is not None and \
@@ -333,5 +362,5 @@ META = {
         'appcfg.eventfile_unique_name / gen_uniqueid / app_name',
         'fs.symlink_safe / fs.replace'],
     'reach_required': ['stepped', 'synchronized', 'finished_container',
-                       'unchanged_running'],
+                       'unchanged_running', 'recreated_handled'],
 }
